@@ -1,6 +1,7 @@
 package main
 
 import (
+	"strconv"
 	"errors"
 	"fmt"
 	"sort"
@@ -418,8 +419,42 @@ func recordHistory(objKind string, G, N, keys int, seed uint64) string {
 				var op, ret string
 				c := ctr.Add(1)
 				if objKind == "safe" {
-					op = []string{"getoradd", "getoradd", "get", "set", "delete", "delete", "has", "len"}[r.intn(8)]
+					op = []string{"getoradd", "getoradd", "get", "set", "delete", "delete", "has", "len",
+						"set", "delete", "keys", "values", "copy", "translate", "translate", "contains", "clear"}[r.intn(17)]
+					encMap := func(mm map[int]int) string {
+						ks := []int{}
+						for kk := range mm {
+							ks = append(ks, kk)
+						}
+						sort.Ints(ks)
+						ps := []string{}
+						for _, kk := range ks {
+							ps = append(ps, fmt.Sprintf("%d_%d", kk, mm[kk]))
+						}
+						return "M" + strings.Join(ps, ".")
+					}
+					encInts := func(tag string, xs []int) string {
+						sort.Ints(xs)
+						ps := []string{}
+						for _, x := range xs {
+							ps = append(ps, strconv.Itoa(x))
+						}
+						return tag + strings.Join(ps, ".")
+					}
 					switch op {
+					case "keys":
+						ret = encInts("K", safe.Keys())
+					case "values":
+						ret = encInts("V", safe.Values())
+					case "copy":
+						ret = encMap(safe.CopyToMap())
+					case "translate":
+						ret = encMap(storage.TranslateToMapOf(safe, func(x int) int { return x }))
+					case "contains":
+						ret = fmt.Sprintf("b%d", b2i(safe.Contains(k)))
+					case "clear":
+						safe.Clear()
+						ret = "u"
 					case "getoradd":
 						ret = fmt.Sprintf("v%d", safe.GetOrAdd(k, v))
 					case "get":
